@@ -260,16 +260,21 @@ fn sample_json(case: &Case, prep: &Prepared, run: &exec::Run, facts: &Facts, see
 pub fn tasks() -> Vec<Task> {
     let repo = std::env::var("VERIF_REPO").unwrap_or_else(|_| "/repo".into());
     let verif = std::env::var("VERIF_HOME").unwrap_or_else(|_| "/verif".into());
-    corpus::load(Path::new(&repo), Path::new(&verif))
+    corpus::load(Path::new(&repo), Path::new(&verif)).into_iter().filter(|t| !t.refused).collect()
 }
 
 /// Re-execute a replay file; returns (violations, digest).
 pub fn replay(r: &Replay, scratch: &mut Scratch, keep_log: bool) -> (Vec<Violation>, String, exec::Run) {
+    let (v, d, run, _) = replay_with_facts(r, scratch, keep_log);
+    (v, d, run)
+}
+
+pub fn replay_with_facts(r: &Replay, scratch: &mut Scratch, keep_log: bool) -> (Vec<Violation>, String, exec::Run, Facts) {
     let prep = exec::prepare(&r.case, scratch);
     let run = exec::run_case(&r.case, &prep, r.sched.clone(), r.max_steps, keep_log, scratch);
-    let (violations, _facts) = oracle::check(&r.case, &prep, &run);
+    let (violations, facts) = oracle::check(&r.case, &prep, &run);
     let digest = format!("{:016x}", run.result.sim.digest);
-    (violations, digest, run)
+    (violations, digest, run, facts)
 }
 
 #[derive(Serialize, Deserialize)]
@@ -279,6 +284,11 @@ pub struct TryOut {
     pub decisions: Vec<u32>,
     #[serde(default)]
     pub vs_calm: Vec<(u32, u32)>,
+    /// anthem's captured stdout (lossy) and the verdict the oracle read from it.
+    #[serde(default)]
+    pub stdout: String,
+    #[serde(default)]
+    pub verdict: Option<bool>,
 }
 
 /// One re-execution in a process of its own (an execution that panics must not share a process with the next one).
@@ -322,7 +332,7 @@ pub fn try_in_fresh_process(r: &Replay, scratch: &mut Scratch) -> TryOut {
     let _ = std::fs::remove_dir_all(&dir);
     match serde_json::from_slice::<TryOut>(&out) {
         Ok(t) => t,
-        Err(_) => TryOut { violations: vec![Violation { class: "abort".into(), detail: format!("re-execution ended with {status:?}") }], digest: String::new(), decisions: vec![], vs_calm: vec![] },
+        Err(_) => TryOut { violations: vec![Violation { class: "abort".into(), detail: format!("re-execution ended with {status:?}") }], digest: String::new(), decisions: vec![], vs_calm: vec![], stdout: String::new(), verdict: None },
     }
 }
 
